@@ -50,10 +50,18 @@
                insert(key, value), only the place of the new node differs)
      stored_instances_counted      live instances = one per stored element and key (the number the spec
                                    oracle prints) + what the containers keep for themselves (end items)
+   Round 6 - one more operation, covered by every theorem above:
+     ORemOut   Array::remove(usize index) with size <= index (any usize; the only removal by index or
+               position that the containers accept although it names no element).  The lifecycle clauses
+               hold across it like across every accepted call (lifetimes_exact_once, no_leak_no_sharing,
+               stored_instances_counted, ledger_accepts_every_prefix quantify over histories that contain
+               it); what the array contains afterwards is left open by the spec as far as "at most one
+               element is removed" (outcome r, an input like the tie offset); remove_out_of_range: the code
+               as it is (r = None) changes nothing at all, an outcome r = Some j is remove(j)
    All theorems are about the Model (LifeModel.v); its tie to the C++ code is the
    correspondence check (checks/C04.py).  Memory below the model's allocations (the allocator
    itself) is observed by ASan/the ledger of the harness only. *)
-From Coq Require Import ZArith List Bool Permutation.
+From Coq Require Import ZArith NArith List Bool Permutation.
 From Life Require Import LifeSpec LifeModel LifeBase LifeSpecProofs LifeStep LifeMain LifeAlias LifeCount.
 Import ListNotations.
 
@@ -198,6 +206,19 @@ Theorem wrappers_are_front_back_insert : forall (st : state) (x : nat) (n : nc) 
   spec_step (abs st) (OInsVia x f ka va) = spec_step (abs st) (OIns x (via_pos f) ka va).
 Proof. exact insvia_is_ins_proof. Qed.
 Print Assumptions wrappers_are_front_back_insert.
+
+(* Array::remove(index) with an index that is not in the array (ORemOut): accepted on every state; with
+   the outcome of the code as it is (r = None) world, event log and variables are unchanged - nothing is
+   destroyed, released or touched - and so is the spec's content; an outcome r = Some j (an array that
+   removes an element at such an index) is remove(j) in model and spec. *)
+Theorem remove_out_of_range : forall (st : state) (x : nat) (a : arr) (i : N),
+  getv (svars st) x = Some (CA a) -> (N.of_nat (length (aelems a)) <= i)%N ->
+  step st (ORemOut x i None) = Ok (true, st) /\
+  spec_step (abs st) (ORemOut x i None) = (true, abs st) /\
+  forall j, step st (ORemOut x i (Some j)) = step st (ORemAt x j) /\
+            spec_step (abs st) (ORemOut x i (Some j)) = spec_step (abs st) (ORemAt x j).
+Proof. exact remove_out_of_range_proof. Qed.
+Print Assumptions remove_out_of_range.
 
 (* find returns what the spec says: the index of the first element with that key / value. *)
 Theorem find_refines_spec : forall (nv : nat) (ops : list op) (st : state) (x : nat) (ka : arg),
@@ -414,3 +435,38 @@ Example tie_nonvacuous :
   | Err _ => false
   end = true.
 Proof. vm_compute. reflexivity. Qed.
+
+(* ---- round 6 ---- *)
+(* remove(index) on the array 5 6 7: index 3 = size, size + 1 and 2^64 - 1 are accepted and change nothing
+   (same world, same log); index 2 names an element, so it is not an ORemOut; the open outcome Some 2 is the
+   removal of the last element (one destruction more in the log, one live instance less), Some 3 is no
+   outcome; remove(0) on an empty array is accepted and changes nothing; a List has no such call.  And a
+   history through these calls ends with a well-bracketed log and nothing left. *)
+Example remove_out_of_range_nonvacuous :
+  match run (init 3) [ONew 0 KArray; OIns 0 PBack (AVal 0) (AVal 5); OIns 0 PBack (AVal 0) (AVal 6); OIns 0 PBack (AVal 0) (AVal 7);
+                      ONew 1 KArray; ONew 2 KList; OIns 2 PBack (AVal 0) (AVal 1)] with
+  | Ok st =>
+      match step st (ORemOut 0 3 None), step st (ORemOut 0 4 None), step st (ORemOut 0 18446744073709551615 None),
+            step st (ORemOut 0 2 None), step st (ORemOut 0 3 (Some 2)), step st (ORemOut 0 3 (Some 3)),
+            step st (ORemOut 1 0 None), step st (ORemOut 2 1 None) with
+      | Ok (true, s3), Ok (true, s4), Ok (true, sh), Ok (false, _), Ok (true, sl), Ok (false, _), Ok (true, se), Ok (false, _) =>
+          Nat.eqb (length (log (sw s3))) (length (log (sw st))) && Nat.eqb (length (heap (sw s4))) (length (heap (sw st))) &&
+          Nat.eqb (length (log (sw sh))) (length (log (sw st))) && Nat.eqb (length (log (sw se))) (length (log (sw st))) &&
+          Nat.eqb (length (log (sw sl))) (S (length (log (sw st)))) && Nat.eqb (S (length (heap (sw sl)))) (length (heap (sw st))) &&
+          match sget (abs s3) 0, sget (abs sl) 0 with
+          | Some (KArray, [(None, Some 5); (None, Some 6); (None, Some 7)]%Z), Some (KArray, [(None, Some 5); (None, Some 6)]%Z) => true
+          | _, _ => false
+          end
+      | _, _, _, _, _, _, _, _ => false
+      end
+  | Err _ => false
+  end = true /\
+  match run (init 2) [ONew 0 KArray; ORemOut 0 0 None; OIns 0 PBack (AVal 0) (AVal 5); OIns 0 PBack (AVal 0) (AValOf 0 0);
+                      ORemOut 0 2 None; ORemOut 0 2 (Some 1); ORemOut 0 7 (Some 0); ORemOut 0 0 None; OIns 0 PBack (AVal 0) (AVal 9)] with
+  | Ok st => match finish st with
+             | Ok st' => well_bracketed (log (sw st')) && Nat.eqb (length (heap (sw st'))) 0 && Nat.ltb 8 (length (log (sw st')))
+             | Err _ => false
+             end
+  | Err _ => false
+  end = true.
+Proof. split; vm_compute; reflexivity. Qed.
